@@ -63,6 +63,11 @@ impl Cli {
             }
             i += 1;
         }
+        if c.stage == "__noop__" {
+            // used by the driver to build under `cargo miri run` and capture the interpreter
+            // command line without running anything
+            std::process::exit(0);
+        }
         c
     }
     pub fn thorough(&self) -> bool {
